@@ -80,4 +80,22 @@ CHECKS["C16"] = {
     "text": "closest point / signed distance over 3 lengths x 8 orientations x 12x6 (t,d) lattice incl. +-1e-9 around the ends; mortar integrals over 12 overlap classes x length ratios x relative angles x gaps x 2 common normals x 18 rigid motions x 6 integrands plus an orientation sweep of the coincident-end classes; nodal area / gap assembly; level-set constraints and penalty energy for plane/corner/circle obstacles x fields x depths. 48k cases / 627k real-code calls quick. Found and fixed the lost overlap at coincident segment ends.",
     "note": "numpy extended-precision reference; sign exactly on the line not judged; non-parallel mortar pairs judged only for invariance/sign/zero as the statement says",
 }
+CHECKS["C02"] = {
+    "engine": "E-PROD",
+    "technique": "exhaustive product: compiled configuration list x state x field x ALL 256 BC subsets; assembled stiffness vs jax.hessian of the factory's own energy",
+    "text": "22 (quick) / 169 (thorough) compiled configurations covering every factory (mechanics, multi-block with 1-3 blocks, dynamics with two Newmark settings), plane strain / axisymmetric, pressure projection None/0/1, orders 1-4, two quadrature degrees, 6 mesh variants (renumbered, per-element vertex rotation, Delaunay), 7-8 materials incl. J2 and viscoelastic; per configuration the full product of internal state {initial, after one and two real updates} x 4 displacement fields x UPredicted zero/non-zero x all 2^8 subsets of 8 labelled (node-group, component) pairs: assembled sparse stiffness equals the dense Hessian of the total energy restricted to the unknowns, is symmetric, and multi-block equals single-block in energy, state update and stiffness. 36k cases quick. Found and fixed the Newmark tangent bug and the broken pressure-projection option.",
+    "note": "compile-level axes are a stated covering list, not their full product (12k points at 10-110 CPU-s each); multi-block x axisymmetric raises NotImplementedError by design and is treated as option not accepted",
+}
+CHECKS["C03"] = {
+    "engine": "E-PROD",
+    "technique": "exhaustive product of mesh x ALL vertex-rotation patterns x order x bubble x rule degree x mode x EVERY monomial vs exact moments",
+    "text": "meshes (reference triangle under rotations/anisotropy/shear, structured, graded, fans, a domain with a hole, seeded Delaunay) x all 3^ne cyclic vertex rotations for ne<=4 x order 1-5 x bubble x triangle rule degree 1-10 x cartesian/axisymmetric x every monomial up to the bound: partition of unity, zero-sum gradients, exact interpolation in value and gradient, volumes = area, exact integration up to the rule's degree (three routes), 1-D rules 0-25, divergence theorem over boundary edges. 37k cases / 2.9M monomial assertions quick; 214k cases thorough.",
+    "note": "exact moments from an independent degree-30 Duffy x Gauss rule cross-checked against the closed barycentric form on every run; axisymmetric exactness claimed for monomial degree + 1 <= rule degree (conservative reading)",
+}
+CHECKS["C13"] = {
+    "engine": "E-BFS",
+    "technique": "explicit-state BFS over mesh operations (elevate, merge, read, nodesets-from-sidesets, create_edges) from generated meshes and harness-written Exodus/JSON files, set-based reference model",
+    "text": "initial meshes: all structured 2..4 x 2..4, Delaunay 6-9 points, two meshes with holes, all 3^ne vertex rotations for ne<=4, 576 harness-written Exodus files per geometry (tri3/tri6, 1-3 blocks, named/unnamed/mixed sets, reversed numbering, 4 netCDF containers) and JSON files; actions elevate (32 variants: order 2-5 x bubble x copy flags), merge (every ordered pair x disjoint/equal/absent names), read, create_nodesets_from_sidesets, create_edges on every reached mesh; depth 3 with canonical de-duplication: index ranges, every node used, CCW positive area, sets index existing entities, edge table vs brute force, affine image of reference nodes, shared edge nodes, no duplicate/unused nodes, node count formula, no member lost by merge/read. 10k distinct meshes / 30k transitions quick. Found and fixed the equal-name overwrite in combine_mesh.",
+    "note": "reference model in python sets; empty side sets outside the alphabet (a zero-length netCDF dimension cannot be written)",
+}
 NOT_APPLICABLE_REASON = {}
